@@ -132,6 +132,44 @@ func (ro *Roles) liftTo(fn *ssa.Function, in ssa.Instruction) ssa.Instruction {
 	return nil
 }
 
+// liftAll returns every instruction of fn that stands for in: in itself when it belongs to
+// fn, else all calls in fn of helpers whose body (transitively) contains in.
+func (ro *Roles) liftAll(fn *ssa.Function, in ssa.Instruction) []ssa.Instruction {
+	if in == nil {
+		return nil
+	}
+	if in.Parent() == fn {
+		return []ssa.Instruction{in}
+	}
+	var contains func(f *ssa.Function, d int) bool
+	contains = func(f *ssa.Function, d int) bool {
+		if f == in.Parent() {
+			return true
+		}
+		if d >= 3 || f.Blocks == nil {
+			return false
+		}
+		found := false
+		allInstrs(f, func(x ssa.Instruction) {
+			if c, ok := x.(*ssa.Call); ok {
+				if g := c.Call.StaticCallee(); g != nil && g != f && ro.w.InModule(g) && contains(g, d+1) {
+					found = true
+				}
+			}
+		})
+		return found
+	}
+	var out []ssa.Instruction
+	allInstrs(fn, func(x ssa.Instruction) {
+		if c, ok := x.(*ssa.Call); ok {
+			if g := c.Call.StaticCallee(); g != nil && ro.w.InModule(g) && contains(g, 1) {
+				out = append(out, x)
+			}
+		}
+	})
+	return out
+}
+
 // roleFuncs lists the resolved anchors.
 func (ro *Roles) roleFuncs() []*ssa.Function {
 	var out []*ssa.Function
@@ -213,7 +251,7 @@ func (ro *Roles) canceledSites(r *Report, rule string) {
 		if e, ok := enumMemo[f]; ok {
 			return e
 		}
-		e := w.EnumPaths(f, EnumOpts{Inline: true, MaxPaths: 20000})
+		e := w.EnumPaths(f, EnumOpts{Inline: true, Opaque: w.statelessCallee, MaxPaths: 20000})
 		enumMemo[f] = e
 		return e
 	}
